@@ -69,6 +69,9 @@ def run_oracles(groups, repo, work, seed, only=None, iters=None):
     return fails, out
 
 
+_oracle_cache = {}
+
+
 def write_violation(pid, n, kind, unit, f, repo, work, seed, cfg):
     """returns (path, found_input: bool)"""
     os.makedirs(os.path.join(ROOT, "replays"), exist_ok=True)
@@ -86,7 +89,10 @@ def write_violation(pid, n, kind, unit, f, repo, work, seed, cfg):
             found = True
     groups = cfg.get("replay", [])
     if groups and not found:
-        fails, out = run_oracles(groups, repo, work, seed)
+        ck = (tuple(groups), repo, seed)
+        if ck not in _oracle_cache:
+            _oracle_cache[ck] = run_oracles(groups, repo, work, seed)
+        fails, out = _oracle_cache[ck]
         mine = [x for x in fails if pid in x.get("props", [])]
         # prefer a failure of the same function
         fn = doc.get("function", "")
